@@ -127,6 +127,11 @@ type Exec struct {
 	clock      *Term
 	errTypes   map[string]types.Type
 
+	tcGen       *TermCtx
+	pcHash      uint64
+	simpCache   map[[2]uint64]bool
+	simpQueries int
+
 	// per worker (accumulated)
 	funcInstr map[string]int
 	stubHits  map[string]int
@@ -136,6 +141,8 @@ type assertStat struct {
 	Reached    int
 	Discharged int
 	Queries    int
+	Ms         int64
+	MaxMs      int64
 }
 
 type workItem struct {
@@ -150,7 +157,12 @@ func (ex *Exec) end(out Outcome, msg string) {
 }
 func (ex *Exec) unsupported(msg string) {
 	if ex.curFrame != nil {
-		msg += " [in " + ex.curFrame.fn.String() + "]"
+		msg += " [in"
+		n := 0
+		for f := ex.curFrame; f != nil && n < 6; f, n = f.caller, n+1 {
+			msg += " " + f.fn.String() + " <-"
+		}
+		msg += "]"
 	}
 	panic(pathEnd{OutUnsupported, msg})
 }
@@ -168,6 +180,11 @@ func (ex *Exec) resetPath(item workItem) {
 	ex.excl = item.excl
 	ex.decisions = ex.decisions[:0]
 	ex.pc = ex.pc[:0]
+	ex.pcHash = 0
+	if ex.simpCache == nil || ex.tcGen != ex.tc {
+		ex.simpCache = map[[2]uint64]bool{}
+		ex.tcGen = ex.tc
+	}
 	ex.pending = nil
 	ex.globals = map[*ssa.Global]*Value{}
 	ex.pkgInit = map[*ssa.Package]bool{}
@@ -207,6 +224,26 @@ func (ex *Exec) addPC(c *Term) {
 		return
 	}
 	ex.pc = append(ex.pc, c)
+	ex.pcHash = ex.pcHash*1000003 + uint64(c.id) + 7
+}
+
+// cannot reports whether c is impossible under the current path condition (solver-aided
+// simplification; an Unknown verdict counts as "possible"). Results are cached per worker.
+func (ex *Exec) cannot(c *Term) bool {
+	if c.IsConst() {
+		return c.val == 0
+	}
+	key := [2]uint64{ex.pcHash, uint64(c.id)}
+	if r, ok := ex.simpCache[key]; ok {
+		return r
+	}
+	ex.simpQueries++
+	r := ex.checkPC(c) == Unsat
+	if len(ex.simpCache) > 2000000 {
+		ex.simpCache = map[[2]uint64]bool{}
+	}
+	ex.simpCache[key] = r
+	return r
 }
 
 func clonePrefix(d []int64, extra int64) []int64 {
